@@ -80,6 +80,9 @@ type Evaluator struct {
 	// has a value pending. Sound only for code whose stages are stubbed or fed in producer-before-consumer
 	// order; a receive with nothing pending is reported as undecided, never guessed.
 	Pipeline bool
+	// Adapt, when set, re-packages the arguments of a top-level call written for the reference signature of fn
+	// to fn's current signature (parameters reordered, bundled into a struct, or dropped).
+	Adapt func(fn *types.Func, args []Value) ([]Value, error)
 	// NumCPU is what runtime.NumCPU() returns in pipeline mode.
 	NumCPU int
 	// Spawned lists the go statements executed in pipeline mode.
@@ -159,7 +162,22 @@ func (ev *Evaluator) tick(pos token.Pos) {
 // ---------------------------------------------------------------- calls
 
 // CallFunc interprets a repository function on the given argument values.
+// CallFuncBound is CallFunc for arguments that were laid out from fn's CURRENT signature (no re-binding).
+func (ev *Evaluator) CallFuncBound(fn *types.Func, args ...Value) (res Value, err error) {
+	saved := ev.Adapt
+	ev.Adapt = nil
+	defer func() { ev.Adapt = saved }()
+	return ev.CallFunc(fn, args...)
+}
+
 func (ev *Evaluator) CallFunc(fn *types.Func, args ...Value) (res Value, err error) {
+	if ev.Adapt != nil {
+		adapted, aerr := ev.Adapt(fn, args)
+		if aerr != nil {
+			return nil, aerr
+		}
+		args = adapted
+	}
 	if ev.depth == 0 {
 		ev.steps = 0 // the budget is per top-level call
 	}
